@@ -87,6 +87,17 @@ def ev(n, t, mode):
         if mode == 'fill':
             return {'k': 'a'}
         return match_dict({'k': ['p-str']}, t)
+    if k == 'starmiss':
+        # T.__star__()[T['k']]: a T expression reads the same in every mode; children whose argument T['k'] (or the
+        # access itself) fails are dropped -- and whatever was set up to evaluate that argument is gone afterwards
+        kids = list(t.values()) if isinstance(t, dict) else list(t) if isinstance(t, (list, tuple)) else []
+        out = []
+        for c in kids:
+            try:
+                out.append(c[c['k']])
+            except (KeyError, IndexError, TypeError):
+                continue
+        return out
     if k == 'wrap':
         m = n[1]
         if m == 'group':
@@ -160,8 +171,10 @@ def group_eval(probe, t):
 
 def gen_node(draw, d, under_group_ok=True):
     S_ = st.sampled_from
-    kind = draw(S_(['p-str', 'p-str', 'p-dict', 'T'] if d <= 0 else
-                   ['p-str', 'p-dict', 'wrap', 'wrap', 'wrap', 'tuple', 'tuple', 'pipe', 'dict', 'coalesce', 'switch', 'lazychain']))
+    kind = draw(S_(['p-str', 'p-str', 'p-dict', 'T', 'starmiss'] if d <= 0 else
+                   ['p-str', 'p-dict', 'wrap', 'wrap', 'wrap', 'tuple', 'tuple', 'pipe', 'dict', 'coalesce', 'switch', 'lazychain', 'starmiss']))
+    if kind == 'starmiss':
+        return ['starmiss']
     if kind == 'lazychain':
         return ['lazychain', draw(S_(['auto', 'fill', 'match'])), [draw(S_(['p-str', 'p-dict', 'T']))]]
     if kind in ('p-str', 'p-dict', 'T'):
@@ -194,6 +207,8 @@ def build(n):
         return 'a'
     if k == 'p-dict':
         return {'k': 'a'}
+    if k == 'starmiss':
+        return T.__star__()[T['k']]
     if k == 'wrap':
         return WRAPPERS[n[1]](build(n[2]))
     if k == 'lazychain':
@@ -277,6 +292,8 @@ def check_modes(recipe, ctx):
     modes = wrapper_modes(tree, set())
     wtp = wrapper_then_probe(tree)
     ctx.label('exp-' + exp[0])
+    if "'starmiss'" in repr(recipe['tree']):
+        ctx.label('star-with-failing-argument')
     if wtp:
         ctx.label('wrapper-then-probe')
     ctx.nontrivial(wtp or len(modes) >= 2)
@@ -546,6 +563,6 @@ def safe_repr(v):
 
 SUBS = [
     Sub('modes', check_modes, gen=gen_modes, quick=5000, thorough=20000,
-        floors={'wrapper-then-probe': 0.05, 'exp-ok': 0.15, 'exp-err': 0.15}),
+        floors={'wrapper-then-probe': 0.05, 'exp-ok': 0.15, 'exp-err': 0.15, 'star-with-failing-argument': 0.05}),
     Sub('shape', check_shape, gen=gen_shape, quick=4000, thorough=15000, floors={'cyclic': 0.05, 'position-fill': 0.03}),
 ]
